@@ -8,8 +8,8 @@ import Mathlib.Analysis.Convex.Radon
 /-!
 # C03 theorems, part 4: completeness of the FIFTEEN axes for two cuboids (3-D), in general position.
 
-A cuboid is the intersection of three slabs; two cuboids meet iff six slabs of `K³` have a common point; by Helly's
-theorem this holds as soon as every FOUR of the six slabs do.  The fifteen quadruples are
+A cuboid is the intersection of three slabs; two cuboids meet iff six slabs of `K³` have a common point; by Helly's theorem
+this holds as soon as every FOUR of the six slabs do.  The fifteen quadruples are
 
 * `6 = 3 + 3`: all three slabs of one cuboid and one slab of the other — "cuboid B meets the slab `|x_k| ≤ a_k`" —
   which is exactly the face-normal condition of axis `e_k` (resp. `R e_l`);
